@@ -45,6 +45,8 @@ type caseSpec struct {
 	thrSet  bool
 	retries int
 	script  []attemptScript
+	verbose bool // buffer.Verbose(true) with a logger
+	noBound bool // retry expression without an Attempts() bound: the middleware's own maximum ends the loop
 }
 
 var methods = []string{"POST", "PUT", "PATCH", "GET", "DELETE", "POST"}
@@ -69,6 +71,10 @@ func genCase(t *rapid.T, raw bool) *caseSpec {
 	for i := 0; i < nh; i++ {
 		c.headers = append(c.headers, [2]string{rapid.SampledFrom(names).Draw(t, "hname"), rapid.StringMatching(`[a-zA-Z0-9 ;=,]{0,12}`).Draw(t, "hval")})
 	}
+	if rapid.IntRange(0, 2).Draw(t, "contentType") == 0 {
+		c.headers = append(c.headers, [2]string{"Content-Type", rapid.SampledFrom([]string{"application/x-www-form-urlencoded", "application/json", "multipart/form-data; boundary=x"}).Draw(t, "ct")})
+	}
+	c.verbose = rapid.IntRange(0, 3).Draw(t, "verbose") == 0
 	thrs := []int64{1, 7, 512, 32 << 10}
 	switch rapid.IntRange(0, 5).Draw(t, "thrKind") {
 	case 0:
@@ -136,6 +142,10 @@ func genCase(t *rapid.T, raw bool) *caseSpec {
 	}
 	c.retries = rapid.IntRange(0, 4).Draw(t, "retries")
 	nfail := rapid.IntRange(0, c.retries).Draw(t, "nfail")
+	if rapid.IntRange(0, 7).Draw(t, "noBound") == 0 { // retried until the middleware's own limit (11 invocations)
+		c.noBound, c.retries = true, 10
+		nfail = rapid.SampledFrom([]int{1, 9, 10, 10}).Draw(t, "nfailLong")
+	}
 	for i := 0; i <= nfail; i++ {
 		s := attemptScript{readKind: rapid.IntRange(0, 4).Draw(t, "readKind"), mutate: rapid.IntRange(0, 7).Draw(t, "mutate"), fail: i < nfail}
 		partial := s.readKind == 1 || s.readKind == 4
@@ -266,6 +276,9 @@ func makeHandlers(t *rapid.T, c *caseSpec) (http.Handler, *result) {
 				bad("full read: %d bytes err=%v, body has %d bytes, equal=%v (first difference at %d)", len(all), err, len(c.body), bytes.Equal(all, c.body), firstDiff(all, c.body))
 			}
 		}
+		if s.mutate%2 == 1 {
+			_ = r.Body.Close() // handlers (and transports) close the body they were given
+		}
 		mutateRequest(r, s.mutate)
 		if s.fail {
 			w.WriteHeader(http.StatusBadGateway)
@@ -278,8 +291,13 @@ func makeHandlers(t *rapid.T, c *caseSpec) (http.Handler, *result) {
 	if c.thrSet {
 		opts = append(opts, buffer.MemRequestBodyBytes(c.thr))
 	}
-	if c.retries > 0 {
+	if c.noBound {
+		opts = append(opts, buffer.Retry("IsNetworkError()"))
+	} else if c.retries > 0 {
 		opts = append(opts, buffer.Retry(fmt.Sprintf("IsNetworkError() && Attempts() <= %d", c.retries)))
+	}
+	if c.verbose {
+		opts = append(opts, buffer.Verbose(true), buffer.Logger(formatLogger{}))
 	}
 	b, err := buffer.New(inner, opts...)
 	if err != nil {
@@ -302,6 +320,14 @@ func frontServer() (*sim.Front, error) {
 	frontOnce.Do(func() { front, frontErr = sim.NewFront() })
 	return front, frontErr
 }
+
+// formatLogger formats its arguments like a real logger.
+type formatLogger struct{}
+
+func (formatLogger) Debug(f string, a ...interface{}) { _ = fmt.Sprintf(f, a...) }
+func (formatLogger) Info(f string, a ...interface{})  { _ = fmt.Sprintf(f, a...) }
+func (formatLogger) Warn(f string, a ...interface{})  { _ = fmt.Sprintf(f, a...) }
+func (formatLogger) Error(f string, a ...interface{}) { _ = fmt.Sprintf(f, a...) }
 
 func firstDiff(a, b []byte) int {
 	n := len(a)
@@ -333,7 +359,7 @@ func verdict(t *rapid.T, c *caseSpec, res *result, status int, how string) {
 		res.problems = append(res.problems, fmt.Sprintf("client got status %d, want %d", status, wantStatus))
 	}
 	if len(res.problems) > 0 {
-		t.Fatalf("%s: %s %s, body %d bytes (chunked=%v chunks=%v), MemRequestBodyBytes=%d (set=%v), retries=%d, script=%+v, headers=%v:\n  %s", how, c.method, c.target, len(c.body), c.chunked, summarize(c.chunks), c.thr, c.thrSet, c.retries, c.script, c.headers, strings.Join(res.problems, "\n  "))
+		t.Fatalf("%s: %s %s, body %d bytes (chunked=%v chunks=%v), MemRequestBodyBytes=%d (set=%v), retries=%d (unbounded expression: %v, verbose: %v), script=%+v, headers=%v:\n  %s", how, c.method, c.target, len(c.body), c.chunked, summarize(c.chunks), c.thr, c.thrSet, c.retries, c.noBound, c.verbose, c.script, c.headers, strings.Join(res.problems, "\n  "))
 	}
 	spilled := int64(len(c.body)) > c.thr
 	earlier := false
